@@ -962,6 +962,35 @@ func gen(g *hx.Gen) {
 			}
 		}
 	}
+	// l at the implementation's own overflow thresholds (maxSizes[k] of the code under test, found
+	// by probing where CoeffUint64 starts to panic) and at the true ones, +-1, d = -2..2, for every
+	// column k = 2..33: Unrank of C(l,k)+d and Rank of the neighbouring sets.  k = 2 has l = 2^32,
+	// a walk of 2^32 steps per call: Unrank is skipped there (Rank is not).
+	for k := 2; k <= 33; k++ {
+		probed := lastTrue(2*uint64(k), func(n uint64) bool { _, p := callU64(n, uint64(k)); return !p })
+		_, step := trueThresholds(uint64(k), maxU64)
+		seen := map[uint64]bool{}
+		for _, t := range []uint64{probed, step} {
+			for dl := -1; dl <= 1; dl++ {
+				l := t + uint64(dl)
+				if seen[l] || l < uint64(k) {
+					continue
+				}
+				seen[l] = true
+				rankSets(l, k)
+				if k == 2 {
+					continue
+				}
+				c := binomBig(l, uint64(k))
+				for d := int64(-2); d <= 2; d++ {
+					slow(new(big.Int).Add(c, big.NewInt(d)), k, l)
+				}
+			}
+		}
+	}
+	g.Exhaustive("Unrank at C(l,k)+d, d = -2..2 (k = 3..33), and Rank of the sets of rank C(l,k)-1..C(l,k)+1 (k = 2..33), for l within 1 of the point where CoeffUint64 starts to panic in column k (probed) and of the true threshold k*C(l,k) < 2^64")
+	g.Note("Unrank at C(l,2)+d for l = 2^32 (maxSizes[2]) is not executed: one call walks 2^32 steps")
+
 	for k := 2; k <= 6; k++ {
 		fit, _ := trueThresholds(uint64(k), maxIntB) // largest l with C(l,k) <= MaxInt
 		walkMax := fit
